@@ -16,6 +16,7 @@ type Case struct {
 	Plugins   []int         `json:"plugins"` // pool positions, ascending = index order
 	Resps     []nm.Response `json:"resps"`
 	Note      string        `json:"note,omitempty"`
+	Pool      int           `json:"-"` // > 0: the pool this case must run on (index into pools)
 
 	Err       int            `json:"err"` // 0 none, 1 conflict, 2 self-update, 3 other error, 4 panic
 	ErrText   string         `json:"err_text,omitempty"`
